@@ -76,12 +76,17 @@ def get_utility_and_feasibility_function(
             states = {k: v for k, v in kwargs.items() if k in state_variables}
             choices = {k: v for k, v in kwargs.items() if k in choice_variables}
 
-            return current_u_and_f(
+            u, f = current_u_and_f(
                 **states,
                 **choices,
                 _period=period,
                 params=kwargs["params"],
             )
+            # The value function is real-valued, even if utility returns integers.
+            # Otherwise, the value function array of the last period has an integer
+            # data type, and the interpolation of this array in the preceding period
+            # rounds the continuation values to integers.
+            return jnp.asarray(u, dtype=jnp.result_type(u, float)), f
 
     else:
 
